@@ -15,6 +15,28 @@ def main():
         return ck.finish("generator failed")
     if not ck.build_props(["Model/LiveCases.vo", "Model/SimCases.vo"]):
         coq_build(["Model/LiveCases.vo", "Model/SimCases.vo"])
+    # guard table, exhaustive: both order classes x order types x every status x bet id x request, on real order objects
+    ST = ["NONE", "PENDING", "CANCELLING", "UPDATING", "REPLACING", "EXECUTABLE", "EXECUTION_COMPLETE", "EXPIRED", "VIOLATION"]
+    SC = {"NONE": "SNone", "PENDING": "SPending", "CANCELLING": "SCancelling", "UPDATING": "SUpdating", "REPLACING": "SReplacing", "EXECUTABLE": "SExecutable",
+          "EXECUTION_COMPLETE": "SExecComplete", "EXPIRED": "SExpired", "VIOLATION": "SViolation"}
+    gcases = [[c, t, st, b, r] for c in (0, 1) for t in (0, 1, 2) for st in ST for b in (0, 1) for r in range(7) if not (c == 1 and (t != 0 or r >= 5))]
+    gout = run_impl("c03", {"cases": gcases})["out"]
+    rows, gbad_direct = [], []
+    for c, o in zip(gcases, gout):
+        acc, raised, unchanged, newst, other = o
+        rows.append("(%s, %s, %s, %s, %s, %s, %s)" % (z(c[0]), z(c[1]), SC[c[2]], cb(bool(c[3])), z(c[4]), cb(acc), SC[newst]))
+        if other is not None or (not acc and not raised) or (not acc and not unchanged):
+            gbad_direct.append((c, o))
+    ev = coq_eval("c03guards", "From V Require Import Model.Num Model.Status Model.Guards.\nOpen Scope Z_scope.\n",
+                  ["Definition cases : list (Z * Z * status * bool * Z * bool * status) := %s.\nEval vm_compute in bad_idx guard_ok cases.\n" % cl(rows)])
+    gbad = parse_nlist(parse_evals(ev[0])[0])
+    ck.family("guard_table", len(gcases), len(gcases), gbad, sorted(set(gbad) | {gcases.index(c) for c, _ in gbad_direct}), exhaustive=True,
+              dist={"classes": 2, "order_types": 3, "statuses": 9, "requests": 7, "accepted": sum(1 for o in gout if o[0])},
+              samples=[{"family": "guard_table", "case": gcases[0], "impl": gout[0]}])
+    for i in gbad[:1]:
+        ck.fail("C03-guard-table", "guard decision differs from the table for (class, type, status, bet id, request) = %s: implementation %s" % (gcases[i], gout[i]), {"case": gcases[i], "impl": gout[i], "how": "harness/impl/c03.py"})
+    for c, o in gbad_direct[:1]:
+        ck.fail("C03-rejected-request-side-effect", "rejected request %s: not an OrderUpdateError or the order changed: %s" % (c, o), {"case": c, "impl": o, "how": "harness/impl/c03.py"})
     chk = [livecheck.c03]
     n = 1500 if thorough else 300
     # live: no stale snapshots here (an exchange does not take back what it has reported; C11 covers stale/duplicated snapshots)
